@@ -1,4 +1,4 @@
-import MgpuProofs.C10Buddy
+import MgpuProofs.C10BuddyFull
 /-!
 # C10 (extension) — the buddy allocator `deviceBuddyMemoryState`: property theorems
 
@@ -97,7 +97,43 @@ example : (runLiveOld (init 0x5000 (4096 * 2 ^ 3)) [] [.pop 1, .pop 1, .pop 1, .
     [[], [0x9000], [0x7000], [0x5000]] := by
   decide +kernel
 
---FULL--
+/-- **The full statement, frees included, for the repaired code** (`runLive`: `allocateMultiplePages` toggles the
+parent's merge bit whenever a block leaves a free list, `if i > 0`). On a device of `4096 * 2^F` bytes at `base`
+(any `F`, any `base`), after ANY history of `Device.allocatePage` bursts (`pop k`), `allocateMultiplePages(n)`
+(`am n`) and frees (`add ps` = `addSinglePAddr` of each page: tracker count, `freeBlock`, `levelOfBlock`, buddy
+merging) in which pages are given back only while live, each once — up to the first fault —
+* no live page lies inside a block that is on a free list (so it cannot be handed out again), and
+* every free list is duplicate-free and the free blocks `[a, a + size/2^l)` are pairwise disjoint. -/
+def buddy_disjoint_full : Prop :=
+  ∀ (F base : Nat) (ops : List Op),
+    (runLive (init base (4096 * 2 ^ F)) [] ops).legal = true →
+    NoLiveInFree (runLive (init base (4096 * 2 ^ F)) [] ops).st (runLive (init base (4096 * 2 ^ F)) [] ops).live ∧
+    FreeDisjoint (runLive (init base (4096 * 2 ^ F)) [] ops).st
+
+/-- Proof: the tree invariant `FInv` of `MgpuProofs/C10BuddyFull*.lean` (free ⇒ exists ∧ not split; split ⇒ exists;
+merge bit ⇔ split ∧ exactly one child free; every tracked page lies in a used block whose tracker counts it) is
+kept by `allocMulti`, `addSingle`/`freeBlock` and hence by every history (`finv_runLive`); two existing
+non-split blocks never overlap (`leaf_overlap`). No overflow hypothesis is needed: `usub` is only applied to
+addresses `≥ base`. (`runLive` stops at the first illegal `add` with the state before it, so the conclusion holds
+for that state as well: `runLive_safe`.) -/
+theorem buddy_disjoint_full_holds : buddy_disjoint_full :=
+  fun F base ops _ => runLive_safe F base ops
+
+/-- non-vacuity: a legal history with frees on an 8-page device at 0x5000 — two single pages, a 2-page block, one
+page of it given back (the block stays allocated), one more page, then the first two pages given back: they merge
+into the 2-page block 0x5000; 0x8000 and 0x9000 stay live -/
+example :
+    (runLive (init 0x5000 (4096 * 2 ^ 3)) []
+      [.pop 1, .pop 1, .am 2, .add [0x7000], .pop 1, .add [0x5000, 0x6000]]).legal = true ∧
+    (runLive (init 0x5000 (4096 * 2 ^ 3)) []
+      [.pop 1, .pop 1, .am 2, .add [0x7000], .pop 1, .add [0x5000, 0x6000]]).live = [0x8000, 0x9000] ∧
+    (runLive (init 0x5000 (4096 * 2 ^ 3)) []
+      [.pop 1, .pop 1, .am 2, .add [0x7000], .pop 1, .add [0x5000, 0x6000]]).st.free =
+        [[], [], [0xb000, 0x5000], [0xa000]] ∧
+    (runLive (init 0x5000 (4096 * 2 ^ 3)) []
+      [.pop 1, .pop 1, .am 2, .add [0x7000], .pop 1, .add [0x5000, 0x6000], .add [0x8000, 0x9000]]).st.free =
+        [[0x5000], [], [], []] := by
+  decide +kernel
 
 /-- the allocation-only instance (proved before the repair; it needs no `addSinglePAddr`) -/
 theorem buddy_disjoint_partial (F base : Nat) (ops : List Op) (h : ops.all Op.isAlloc = true) :
